@@ -36,7 +36,7 @@ ASSUMPTIONS = [
     "what is reported FOR a frame in the band/over the limit is unconstrained, as the statement allows; only resumption after its terminator is checked",
     "length-prefixed (file-based) and fixed-size framing have no in-band terminator: only safe frames are enumerated there",
 ]
-BOUNDS = {"quick": "limits {8, 9}, base64 limit 16; <= 2 frames + triples", "thorough": "limits {6, 8, 9, 16}; <= 3 frames + quadruples"}
+BOUNDS = {"quick": "limits {8, 9}, base64 limit 16; <= 2 frames + triples", "thorough": "limits {6, 8, 9}: <= 3 frames + quadruples; limit 16: <= 2 frames + triples"}
 
 LIMITS = {"quick": (8, 9), "thorough": (6, 8, 9, 16)}
 DIGITS = "1234"
@@ -306,6 +306,8 @@ def matches(cfg: FCfg, frames: list[tuple[str, bytes]], outs: tuple) -> bool:
 def kind_sequences(cfg: FCfg, limit: int, tier: str) -> list[tuple[str, ...]]:
     ks = list(kinds(cfg, limit))
     seqs: list[tuple[str, ...]] = []
+    if limit >= 16:
+        tier = "quick"  # the largest limit (longest streams, ~4x the states per stream) keeps the quick sequence alphabet in both tiers
     maxfull = 2 if tier == "quick" else 3
     for L in range(1, maxfull + 1):
         seqs.extend(itertools.product(ks, repeat=L))
